@@ -138,7 +138,7 @@ std::string CheckMerkleRow(const UniValue& row)
     if (row.exists("paths")) {
         for (size_t i = 0; i < row["paths"].size(); ++i) { std::string w = check_path(i, row["paths"][i]); if (!w.empty()) return w; }
     }
-    if (row.exists("ppos")) {
+    if (row.exists("ppos") && row["ppos"].isObject()) {     // (an empty function is printed as [])
         for (const auto& k : row["ppos"].getKeys()) { std::string w = check_path(std::stoul(k) - 1, row["ppos"][k]); if (!w.empty()) return w; }
     }
     // witness tree: coinbase leaf = 0, the other leaves are wtxids
